@@ -24,8 +24,9 @@ sys.path.insert(0, os.path.join(os.path.dirname(os.path.dirname(os.path.abspath(
 from vlib import OkV, Internal, Diag, coq_str, coq_z, REPO  # noqa: E402
 
 LEVEL = 'proof'
-FLAGS = ('fx_init', 'fx_float', 'fx_fwd', 'fx_ops', 'fx_ru_generic', 'fx_ru_phi', 'fx_ru_call')
-KNOWN = ('volatile', 'copyblob', 'undefined')
+FLAGS = ('fx_init', 'fx_float', 'fx_fwd', 'fx_ops', 'fx_ru_generic', 'fx_ru_phi', 'fx_ru_call', 'fx_copyblob', 'fx_undef',
+         'fx_volatile')
+KNOWN = ()
 
 
 # ---------------------------------------------------------------- helpers on the implementation
@@ -219,7 +220,7 @@ def witnesses(ir):
     b.add_instruction(ir.Store(c, p, volatile=True))
     b.add_instruction(ir.Load(p, 'l', ir.i32, volatile=True))
     b.add_instruction(ir.Exit())
-    out['volatile'] = [m]
+    out['fx_volatile'] = [m]
     m, f, b = _proc(ir)
     a = ir.Alloc('a', 4, 4)
     b.add_instruction(a)
@@ -227,11 +228,11 @@ def witnesses(ir):
     b.add_instruction(p)
     b.add_instruction(ir.CopyBlob(p, p, 4))
     b.add_instruction(ir.Exit())
-    out['copyblob'] = [m]
+    out['fx_copyblob'] = [m]
     m, f, b = _proc(ir)
     b.add_instruction(ir.Undefined('u', ir.i32))
     b.add_instruction(ir.Exit())
-    out['undefined'] = [m]
+    out['fx_undef'] = [m]
     # the replace_use defects of ppci/ir.py (repaired in /repo: 2d6a9c1, e4350a7, 283ca09)
     out['fx_ru_generic'] = [fwd(lambda m, x: [ir.Store(x, x)], ir.ptr)]
 
@@ -476,7 +477,7 @@ def correspond(ctx, flags, mods, lex_pool=()):
         recs.append(('print', m, None))
         # hypotheses of c15_roundtrip: wf && printable (model) must imply that the real round trip succeeded
         tab = [(b, s2) for b, s2 in tr if irimport.float_bits(float(s2)) == b]
-        real_ok = oracle(irimport, m, ignore_volatile=True) is None
+        real_ok = oracle(irimport, m, ignore_volatile=not flags.get('fx_volatile', False)) is None
         dist['real_roundtrip_ok'] = dist.get('real_roundtrip_ok', 0) + real_ok
         cases.append(('case_hyp %s %s (%s) %s' % (cfg, tab_term(tab), term, 'true' if real_ok else 'false'), True))
         recs.append(('theorem-hypotheses', m, text))
@@ -596,6 +597,8 @@ def search(ctx, deep=False):
     sem = sem_compare(irgen, irsem_py)
     classes = {}
     from ppci import ir
+    wit = witnesses(ir)
+    fixed3 = all(oracle(irimport, m) is None for k3 in ('fx_copyblob', 'fx_undef', 'fx_volatile') for m in wit[k3])
     xs, fcls = float_pool(rng, extra=400 if deep else 100)
     for j, m in enumerate(float_modules(ir, xs, name='sf', per=12)):
         d = oracle(irimport, m)
@@ -610,11 +613,11 @@ def search(ctx, deep=False):
     for k in range(n):
         # odd k: without the instruction kinds / flags that are known findings, so that the rest of such modules is
         # compared too (a module that cannot be read at all hides every other difference)
-        feats = None if k % 2 == 0 else tuple(f for f in irgen.ALL_FEATURES if f not in ('copyblob', 'undefined'))
+        feats = None if k % 2 == 0 else tuple(f for f in irgen.ALL_FEATURES if fixed3 or f not in ('copyblob', 'undefined'))
         if k % 4 == 3:   # + locals/parameters named like module-level values, calls to later functions (irgen extras)
             feats = feats + tuple(getattr(irgen, 'EXTRA_FEATURES', ()))
         m = irgen.gen_module(rng, size=1 + k % 4, features=feats, name='s%d' % k)
-        d = oracle(irimport, m, sem=sem if k % 5 == 0 else None, ignore_volatile=(k % 2 == 1))
+        d = oracle(irimport, m, sem=sem if k % 5 == 0 else None, ignore_volatile=(k % 2 == 1 and not fixed3))
         if d is None:
             continue
         c = classify(d)
@@ -651,7 +654,7 @@ def forward_double_use(t):
 
 
 CORPUS_FEATURES = ('diamond', 'loop', 'selfloop', 'dupedge', 'alloca', 'volatile', 'globals', 'calls', 'extern', 'casts',
-                   'floats', 'literal', 'shuffle', 'ub', 'bigconst', 'ptrarith', 'rot', 'initref')
+                   'floats', 'literal', 'shuffle', 'ub', 'bigconst', 'ptrarith', 'rot', 'initref', 'copyblob', 'undefined')
 
 
 def corpus_modules(irgen, irimport, count=60):
@@ -714,11 +717,13 @@ EXPLANATION = ('Coq theorems about Model.IrText (hand model of Writer + __str__ 
                'c15_module_parse (+16 per-kind theorems, statement/block/function), c15_resolve_roundtrip (reader-state invariant: '
                'scopes = definitions seen so far, not yet defined references = placeholders, define_value = substitution). '
                'Refutations: 6 for the baseline code (initial values of globals lost; exponent-form and non-finite floats, '
-               'rol/ror, ~ unreadable; operands defined later rejected), 3 replace_use defects of ir.py (repaired in /repo), 3 that '
-               'remain (volatile lost, CopyBlob / Undefined unreadable), each replayed on the implementation. The bounded corpus '
+               'rol/ror, ~ unreadable; operands defined later rejected), 3 replace_use defects of ir.py (repaired in /repo), 3 for '
+               'the code before fixes/C15-copyblob-reader, C15-undefined-type, C15-volatile-marker.diff (volatile lost, CopyBlob / '
+               'Undefined unreadable; with the three repairs c15_wave3_fixed, c15_volatile_kept and c15_norm_keeps_volatile show '
+               'that volatile flags survive and the normal form only sorts phi inputs), each replayed on the implementation. The bounded corpus '
                'theorem (67 modules) is kept as a cross-check of the definitions. printable = decidable: names are identifiers, float '
-               'repr texts are FLOAT lexemes that read back to the same bits, constructor checks of ppci.ir hold, no '
-               'CopyBlob/Undefined, phi not empty. Every run evaluates wf && printable in the model for each generated module '
+               'repr texts are FLOAT lexemes that read back to the same bits, constructor checks of ppci.ir hold, phi not empty, '
+               'CopyBlob / Undefined / volatile only when the corresponding repair is in (switch probed on every run). Every run evaluates wf && printable in the model for each generated module '
                'and requires the real round trip to have succeeded whenever they hold. InlineAsm/JumpTable are outside Spec.IRSyntax.')
 TRUSTED = ['hand model coq/Model/IrText.v (cross-checked against ppci.irutils on every run: text, tokens, reader result)',
            'the model reader is lex ; parse ; resolve while Python interleaves them lazily: for texts with several faults '
@@ -730,9 +735,10 @@ TRUSTED = ['hand model coq/Model/IrText.v (cross-checked against ppci.irutils on
            'Model.IrJson.patch_instr (ir.replace_use) shared with C16']
 ASSUMPTIONS = ['well-formed = Spec.IRSyntax.wf_modul; printable = Model.IrText.printable (names are identifiers '
                '[A-Za-z][A-Za-z0-9_]*, float repr texts are lexemes and fp (fr b) = b, constructor checks of ppci.ir hold, no '
-               'CopyBlob/Undefined, phi with at least one input, rol/ror not applied to a value named like an instruction keyword)',
-               'normal form = the module without what the text does not carry: volatile flags (reported as a finding, not hidden) '
-               'and the order of phi inputs (printed sorted by block name)',
+               'CopyBlob/Undefined/volatile unless the reader repair is applied, phi with at least one input, rol/ror not applied to a '
+               'value named like an instruction keyword)',
+               'normal form = the module with phi inputs sorted by block name; before fixes/C15-volatile-marker.diff also without '
+               'volatile flags (reported as a finding, not hidden)',
                'c15_roundtrip needs fx_fwd and the replace_use switches on: true for the current /repo (all C15 fixes and the '
                'ir.replace_use fixes are applied); the check probes these switches on every run']
 MANIFEST = {
@@ -740,7 +746,8 @@ MANIFEST = {
             'back to the normal form of the module (volatile flags dropped, phi inputs sorted), which prints identically '
             '(c15_roundtrip, unbounded, proved in Coq on the hand model: lexer layer, every declaration and instruction kind, '
             'name resolution with forward references). The baseline code violated the property in 6 ways (refuted in Coq, '
-            'replayed, 4 fix diffs now applied); volatile flags, CopyBlob and Undefined remain known findings (refuted in Coq)',
+            'replayed, 4 fix diffs applied); volatile flags, CopyBlob and Undefined are refuted for the code before their three '
+            'repairs (3 further fix diffs), after which the normal form only sorts phi inputs',
     'note': 'trusted: hand model Model/IrText.v (differentially checked against Writer/tokenize/Reader on ~1500 cases per '
             'quick run incl. ~600 token spellings, and the theorem hypotheses are evaluated per generated module), irimport, '
             'CPython float repr/float. The model reader is lex;parse;resolve, Python interleaves them (same result on success).',
